@@ -202,7 +202,27 @@ _ADD7 = {
     "C17": " Every one of the 16384 message types, header-only and with one attribute, every cut.",
     "C18": " Most messages handed to send carry an attribute with a registered type code (36 of them) of its usual size.",
 }
+_ADD8 = {
+    "C01": " Text values ending in UTF-8 edge cases, reason phrases with a valid ERROR-CODE header, the RFC 8489 nonce cookie; mutations that frame a message as other layers do, put attributes behind the advertised size, add long material after sealing attributes, very many attributes, other protocols' first bytes, near-miss FINGERPRINT values.",
+    "C02": " The same mutations (framing, attributes behind the advertised size, long tails after sealing, very many attributes, near-miss FINGERPRINT values).",
+    "C04": " Every verdict is taken through Message::from_bytes and TryFrom<&[u8]>; they must agree.",
+    "C05": " A request / indication that consumes an outstanding transaction with its id is a violation; shape 'answered between two polls of one instant'.",
+    "C07": " One request in 200 carries more attribute bytes than the 16-bit length field can express.",
+    "C08": " ALTERNATE-DOMAIN / UNKNOWN-ATTRIBUTES of 65526..65535 bytes; every family byte x the sizes around 8 and 20 for the address decoders.",
+    "C09": " Attribute values that begin with the magic cookie; one program in four on a builder observed between additions.",
+    "C10": " MESSAGE-INTEGRITY of other sizes than 20 bytes in every tail up to length 3; every tail up to length 2 behind 256 / 1022..1025 attributes.",
+    "C11": " The same operations on a second builder that is not looked at in between give the same message.",
+    "C12": " The unchecked in-place writer called directly on a larger destination; raw attributes made through new_owned and the data wrappers.",
+    "C13": " The owned copy of a builder that borrows the attribute; messages of 65540..65552 bytes.",
+    "C14": " 400 connections abandoned in the middle of a 64 KiB frame before anything else (process-wide state).",
+    "C16": " The generated response is read back through the typed API as well: what it reports is what the wire holds.",
+    "C17": " Whatever the parser accepts has the size its header declares and no accepted strict prefix; a sealing attribute behind the advertised size among the inputs.",
+    "C19": " has_method / has_class answer true for exactly one method and one class (16-bit arguments beyond the 12-bit range included).",
+    "C20": " Shape 'answered between two polls of one instant'; the monitor's mutable-handle observation is made in every other history only.",
+}
 for _k, _t in _ADD.items():
+    PROPS[_k]["rule"] += _t
+for _k, _t in _ADD8.items():
     PROPS[_k]["rule"] += _t
 for _k, _t in _ADD7.items():
     PROPS[_k]["rule"] += _t
